@@ -219,6 +219,26 @@ const C05_DIRECTED: &[(&str, &[(&str, &str)])] = &[
     ("deep_unknown", &[("a", "package t; interface I { Map<String, List<Nope>> f(in List<List<Nope2>> x); }")]),
 ];
 
+/// a reference nested `depth` levels deep (generated, not a constant)
+fn c05_very_deep(depth: usize) -> Vec<(String, String)> {
+    let mut t = String::from("Parc");
+    let mut u = String::from("Nope");
+    for k in 0..depth {
+        if k % 2 == 0 {
+            t = format!("List<{t}>");
+            u = format!("{u}[]");
+        } else {
+            t = format!("Map<String,{t}>");
+            u = format!("List<{u}>");
+        }
+    }
+    vec![
+        ("a".to_string(), format!("package t; import s.Parc; parcelable P {{ {t} deep; {u} unknown; }}")),
+        ("b".to_string(), "package s; parcelable Parc { int x; }".to_string()),
+    ]
+}
+
+
 pub fn run_c05(ctx: &Ctx) -> i32 {
     let mut stats = Stats::default();
     stats.merge(par_cases(ctx, "directed", C05_DIRECTED.len() as u64, Duration::from_secs(30), |i, _r, st| {
@@ -226,6 +246,36 @@ pub fn run_c05(ctx: &Ctx) -> i32 {
         let files: Vec<(String, String)> = files.iter().map(|f| (f.0.to_string(), f.1.to_string())).collect();
         judge(Which::C05, "directed", i, &files, st, label);
     }));
+    // references buried under hundreds / more than a thousand container levels (run on threads with a large stack)
+    const DEPTHS: &[usize] = &[100, 255, 256, 257, 511, 512, 999, 1000, 1001, 1024, 1500];
+    let only: Option<Option<u64>> = ctx.replay.as_ref().map(|(s, c)| if s == "very_deep" { Some(*c) } else { None });
+    let deep_stats = std::thread::Builder::new()
+        .stack_size(512 << 20)
+        .spawn({
+            let seed = ctx.seed;
+            move || {
+                let mut st = Stats::default();
+                for (i, d) in DEPTHS.iter().enumerate() {
+                    match only {
+                        Some(None) => continue,
+                        Some(Some(c)) if c != i as u64 => continue,
+                        _ => {}
+                    }
+                    let files = c05_very_deep(*d);
+                    let mut rng = crate::prng::Rng::for_case(seed, "very_deep", i as u64);
+                    let _ = &mut rng;
+                    st.inc(&format!("very_deep.depth{d}"));
+                    judge(Which::C05, "very_deep", i as u64, &files, &mut st, "very_deep");
+                }
+                st
+            }
+        })
+        .ok()
+        .and_then(|h| h.join().ok());
+    match deep_stats {
+        Some(s) => stats.merge(s),
+        None => stats.inconclusive += 1,
+    }
     stats.merge(random_projects(ctx, Which::C05, "projects", ctx.tier.pick(15_000, 250_000), ctx.tier.pick(80, 900), ProjCfg::default()));
     finish(
         ctx,
